@@ -1,6 +1,70 @@
 //! C06: summary statistics / zoom records of files written by the real writers, read back with the real readers.
+//!
+//! Additional case kinds for the info-tool stage (tools/vlib/props/C06.py `info_tool_runs`):
+//!   (20 opts sizes items path)  write a bigWig to the file `path` (BigWigWrite::create_file, single pass), open it with
+//!                               BigWigRead::open_file            -> (0 summary) | (1 code)
+//!   (21 opts sizes items path)  the same for a bigBed            -> (0 summary item_count) | (1 code)
+//!   summary = (total_items bases min max sum sumsq), f64 fields as bit patterns (what `get_summary` returns).
 #[path = "../c0608_bed.rs"]
 mod bedw;
+use bigtools::beddata::BedParserStreamingIterator;
+use bigtools::{BigBedRead, BigBedWrite, BigWigRead, BigWigWrite};
+use bt_harness::bbi::{bw_items, classify_err, get_opts, get_sizes, runtime, write_options};
+use bt_harness::{a, sl, S};
+
+fn summary_s(s: &bigtools::Summary) -> S {
+    sl![a(s.total_items), a(s.bases_covered), a(s.min_val.to_bits()), a(s.max_val.to_bits()), a(s.sum.to_bits()), a(s.sum_squares.to_bits())]
+}
+
+fn write_and_summarise(c: &S) -> S {
+    let kind = c.at(0).u32();
+    let o = get_opts(c.at(1));
+    let sizes = get_sizes(c.at(2));
+    let path = c.at(4).string();
+    let allow = !o.sort_all;
+    let rt = runtime(2);
+    if kind == 20 {
+        let mut w = BigWigWrite::create_file(&path, sizes).unwrap();
+        w.options = write_options(&o);
+        if let Err(e) = w.write(BedParserStreamingIterator::wrap_infallible_iter(bw_items(c.at(3)).into_iter(), allow), rt) {
+            return sl![a(1), a(classify_err(&e))];
+        }
+        let mut r = match BigWigRead::open_file(&path) {
+            Ok(r) => r,
+            Err(_) => return sl![a(1), a(2)],
+        };
+        match r.get_summary() {
+            Ok(s) => sl![a(0), summary_s(&s)],
+            Err(_) => sl![a(1), a(1)],
+        }
+    } else {
+        let mut w = BigBedWrite::create_file(&path, sizes).unwrap();
+        w.options = write_options(&o);
+        if let Err(e) = w.write(BedParserStreamingIterator::wrap_infallible_iter(bedw::bb_items(c.at(3)).into_iter(), allow), rt) {
+            return sl![a(1), a(classify_err(&e))];
+        }
+        let mut r = match BigBedRead::open_file(&path) {
+            Ok(r) => r,
+            Err(_) => return sl![a(1), a(2)],
+        };
+        let s = match r.get_summary() {
+            Ok(s) => summary_s(&s),
+            Err(_) => return sl![a(1), a(1)],
+        };
+        match r.item_count() {
+            Ok(n) => sl![a(0), s, a(n)],
+            Err(_) => sl![a(1), a(3)],
+        }
+    }
+}
+
+fn run(c: &S) -> S {
+    match c.at(0).u32() {
+        20 | 21 => write_and_summarise(c),
+        _ => bedw::run_any(c),
+    }
+}
+
 fn main() {
-    bt_harness::run_cases(bedw::run_any);
+    bt_harness::run_cases(run);
 }
